@@ -30,4 +30,41 @@ CLAIMED["C06"] = {
     "text": "Decides the first sentence of the property statically: every integrity field of the XZ format (magics, 4 CRC32s, stream flags, declared sizes, paddings, block check CRC32/CRC64, index count/sizes, backward size, trailing data) is compared with the right counterpart (identified by data-flow provenance), a mismatch reaches only Err, no successful return is reachable from the field's read without the comparison, the finalized digest is the one the reads were routed through, and no comparison operand passes a narrowing cast or wrapping arithmetic. Declined: the 'consequently' clause (it rests on CRC32/CRC64 detecting every corruption).",
     "note": "Trusts rustc's MIR and the documented Read/BufRead contracts.",
 }
-NOT_APPLICABLE = {p: WIP for p in ["C01","C02","C03","C04","C05","C07","C08","C09","C10","C11","C13","C14","C15","C17"]}
+
+AI_NOTE = "Trusts rustc's MIR, the std/byteorder/crc models of engine/models.py (documented Read/BufRead/Write contracts), assumptions A-COUNTER (byte counters < 2^63) and A-VEC (Vec length <= isize::MAX), and the argued entries of rules/justified.json (each with mechanically checked side-conditions)."
+CLAIMED["C07"] = {
+    "engine": "E-AI + E-CFG/E-TERM",
+    "technique": "static analysis: abstract interpretation over MIR (linear forms + facts, tabulated inlining, most-general-client harness per public type) refuting every panic-capable site; loop classification; allocation-size bounds",
+    "design_ref": "DESIGN.md section 4 / C07",
+    "text": "Decides statically: (R1) each of the ~145 panic-capable MIR sites (overflow/bounds/division asserts with overflow checks on, panicking std calls, explicit panics) reachable from any public decoding entry point - one-shot functions, the streaming decoder under any call sequence, the raw decoders with any accepted parameters - is refuted by abstract interpretation or matches an argued entry of rules/justified.json whose side-conditions are re-checked; unmodelled external callees fail closed; (R2) every loop is iterator-driven, exactly unrolled, or cannot go round without a consuming/producing call; (R3) every sized allocation is bounded by 2^23 or is unit growth by data. Declined: that finite input cannot drive unbounded output (range-coder numerics); heap numbers.",
+    "note": AI_NOTE,
+}
+CLAIMED["C08"] = {
+    "engine": "E-CFG/E-TERM",
+    "technique": "static analysis: per-arm read widths, provenance of the stored size, dominance/path checks of size test, final equality and end-marker acceptance (MIR facts)",
+    "design_ref": "DESIGN.md section 4 / C08",
+    "text": "Decides statically: read_header consumes 13/13/5 bytes per option (resolved read widths, through local helpers); the size in effect depends only on the header field resp. only on the caller's value per option arm; the size test opens every round of the decoding loop (ordering comparison); with a size in effect every Finish-mode success passes produced == size whose mismatch edge is Err; the end marker is accepted only behind distance == 0xFFFF_FFFF and a true is_finished_ok (code == 0 and end of input); match lengths handed to the window never depend on the size in effect. Declined: that the produced count equals the declared one for a given stream (value-level).",
+    "note": "Trusts rustc's MIR.",
+}
+CLAIMED["C11"] = {
+    "engine": "E-AI + E-CFG/E-TERM",
+    "technique": "static analysis: E-AI reachability from one-shot entries + classification of consuming calls by resolved callee and reader type; dominance of the 5-byte preamble; path checks after size / end byte",
+    "design_ref": "DESIGN.md section 4 / C11",
+    "text": "Decides statically: on every path reachable from the one-shot decoders (abstract interpretation proves the streaming carry-over code dead there) input is consumed only by exact-width reads, peeks, adapters' own reads or on Take-limited readers; the size test stops the loop before any further consumption and nothing touches the input afterwards; RangeDecoder::new reads exactly 1+4 bytes and dominates every success of its creators; normalisation reads one byte only under range < 2^24; nothing is read after the LZMA2 end byte; XZ rejects trailing bytes. Declined: lock-step with a conforming encoder (numerics).",
+    "note": AI_NOTE,
+}
+CLAIMED["C13"] = {
+    "engine": "E-AI + E-CFG/E-TERM",
+    "technique": "static analysis: provenance of fill_buf slices and raw read counts, loop-shape check of the padding scan, effect check of counting/digesting adapters, E-AI reachability of variable-length reads",
+    "design_ref": "DESIGN.md section 4 / C13",
+    "text": "Decides statically, under the documented Read/BufRead contracts: the size/content of a peeked buffer flows only into emptiness tests, the scan-consume-all loop (which must loop back to fill_buf), forwarders, or the Partial-mode look-ahead; variable-length reads occur only in adapters, on in-memory cursors, or in code unreachable from the one-shot entries; the counting adapter counts exactly what it forwards; the block-header reader is drained before its digest is compared. Declined: the streaming decoder under arbitrary write chunking (C05).",
+    "note": AI_NOTE,
+}
+CLAIMED["C14"] = {
+    "engine": "E-CFG/E-TERM",
+    "technique": "static sibling agreement: per-field provenance terms of reset_state vs constructor (field list from the ADT), dominance of reset_state in the reset entry points",
+    "design_ref": "DESIGN.md section 4 / C14",
+    "text": "Decides statically: for every field of the decoder state (taken from the ADT definition, so a new field becomes an obligation) reset_state stores on every path the same value the constructor builds, with two documented exceptions; the literal table is refilled or re-created on both branches; LzmaDecoder::reset / Lzma2Decoder::reset call reset_state unconditionally with the constructor's properties; sizes cannot leak across LZMA2 resets; window and range decoder are per-call locals.",
+    "note": "Trusts rustc's MIR.",
+}
+NOT_APPLICABLE = {p: WIP for p in ["C01","C02","C03","C04","C05","C09","C10","C15","C17"]}
